@@ -413,7 +413,12 @@ pub fn gen_c09(rng: &mut Rng, thorough: bool) -> Vec<Tagged> {
             out.push((format!("{}-learn", tag), Case::Net(spec.clone(), NetCmd::Learn { data: data.clone(), val: Some((val.clone(), 100)), batch: 2, epochs: rng.range(1, 3) as i32 })));
             out.push((format!("{}-validate-in-training", tag), Case::Net(spec.clone(), NetCmd::Validate { data: val.clone(), tol: 0.1, pre_training: true })));
             out.push((format!("{}-validate-outside", tag), Case::Net(spec.clone(), NetCmd::Validate { data: val, tol: 0.1, pre_training: false })));
-            out.push((format!("{}-predict", tag), Case::Net(spec, NetCmd::Predict(data[0].0.clone()))));
+            out.push((format!("{}-predict", tag), Case::Net(spec.clone(), NetCmd::Predict(data[0].0.clone()))));
+            // early stopping fires (tolerance 1 stops at epoch 2; rising loss with a negative rate)
+            let mut spec2 = spec.clone();
+            spec2.opt = Opt::SGD { lr: *rng.pick(&[0.05f32, -0.05]), decay: None };
+            let val2 = rand_data(rng, 2, input, outsh, Obj::MSE);
+            out.push((format!("{}-learn-earlystop", tag), Case::Net(spec2, NetCmd::Learn { data: data.clone(), val: Some((val2, rng.range(1, 2) as i32)), batch: 1, epochs: 6 })));
         }
     }
     out
@@ -475,4 +480,69 @@ pub fn gen_c05(rng: &mut Rng, thorough: bool) -> Vec<Tagged> {
         }
     }
     out
+}
+
+/// C05 falsifier: the same training / validation / batched-prediction job in thread pools of
+/// different sizes, repeated, with and without schedule perturbation; every observable must be
+/// bit-identical across all runs.
+pub fn fals_c05(rng: &mut Rng, thorough: bool) -> crate::fals::Fals {
+    use crate::case::run_net_cmd;
+    let mut f = crate::fals::Fals::new();
+    let mut o = GenOpts::default();
+    o.wkind = 2;
+    o.dropout = true;
+    o.acts = vec![Act::Tanh, Act::Sigmoid, Act::Leaky, Act::ReLU];
+    let nets = if thorough { 24 } else { 4 };
+    let pools: Vec<usize> = if thorough { vec![1, 2, 3, 5, 8, 16, 33] } else { vec![1, 2, 3, 8, 33] };
+    let reps = if thorough { 6 } else { 2 };
+    let mut built = 0;
+    let mut tries = 0;
+    while built < nets && tries < 200 {
+        tries += 1;
+        let spatial = built % 2 == 0;
+        let (mut spec, input, outsh) = match train_net(rng, &o, spatial, false) { Some(x) => x, None => continue };
+        spec.opt = rand_opt(rng, built % 5);
+        spec.obj = Obj::MSE;
+        let nd = rng.range(5, 11);
+        let data = rand_data(rng, nd, input, outsh, Obj::MSE);
+        let nv = *rng.pick(&[65usize, 130, 200, 333]);
+        let val = rand_data(rng, nv, input, outsh, Obj::MSE);
+        let cmds = vec![
+            ("learn", NetCmd::Learn { data: data.clone(), val: Some((val.clone(), 100)), batch: rng.range(2, 5), epochs: 2 }),
+            ("validate", NetCmd::Validate { data: val.clone(), tol: 0.1, pre_training: false }),
+            ("predict_batch", NetCmd::PredictBatch(val.iter().map(|d| d.0.clone()).collect())),
+        ];
+        built += 1;
+        for (name, cmd) in cmds {
+            let mut reference: Option<(usize, usize, Vec<i128>)> = None;
+            for &k in &pools {
+                let pool = rayon::ThreadPoolBuilder::new().num_threads(k).build().unwrap();
+                for rep in 0..reps {
+                    neurons::verif::PERTURB.store(if rep % 2 == 1 { rng.next() | 1 } else { 0 }, std::sync::atomic::Ordering::Relaxed);
+                    let out = pool.install(|| {
+                        let r = std::panic::catch_unwind(std::panic::AssertUnwindSafe(|| {
+                            let mut n = spec.build();
+                            let mut t: Vec<i128> = vec![0];
+                            run_net_cmd(&mut t, &mut n, &cmd);
+                            t
+                        }));
+                        r.unwrap_or_else(|_| vec![1])
+                    });
+                    neurons::verif::PERTURB.store(0, std::sync::atomic::Ordering::Relaxed);
+                    match &reference {
+                        None => reference = Some((k, rep, out)),
+                        Some((k0, r0, o0)) => {
+                            let same = *o0 == out;
+                            f.check(&format!("schedule/{}", name), same, "result differs between thread counts / repetitions", || {
+                                let pos = o0.iter().zip(out.iter()).position(|(a, b)| a != b).unwrap_or(0);
+                                format!("{} on network {:?} ({} training samples, {} evaluation inputs): {} threads (repetition {}) vs {} threads (repetition {}): first difference at result token {} ({} vs {})",
+                                        name, spec.layers.iter().map(|l| l.kind()).collect::<Vec<_>>(), nd, nv, k0, r0, k, rep, pos, o0.get(pos).cloned().unwrap_or(0), out.get(pos).cloned().unwrap_or(0))
+                            });
+                        }
+                    }
+                }
+            }
+        }
+    }
+    f
 }
